@@ -51,8 +51,10 @@ def gen_cases(tier, seed):
                     layers.append({"kind": "uniform", "n": float(rng.uniform(1.3, 1.8)), "range": r, "above": None, "below": None})
                 else:
                     layers.append({"kind": "antarctic", "n0": float(rng.uniform(1.6, 1.85)), "k": float(rng.uniform(0.2, 0.45)), "a": float(rng.uniform(0.008, 0.02)), "range": r, "above": None, "below": None})
-            c.update(ice={"kind": "layered", "layers": layers, "above": 1.0, "below": None})
+            c.update(ice={"kind": "layered", "layers": layers, "above": [1.0, 1.0, 1.0, None][int(rng.integers(0, 4))], "below": [None, None, 1.5, 2.2][int(rng.integers(0, 4))]})
             rho = float(10 ** rng.uniform(0.5, 3))
+            c["on_boundary"] = [None, None, None, "from", "to"][int(rng.integers(0, 5))]
+            c["edges"] = edges
         else:
             zlo = -1000.0
             ns = int(rng.integers(1, 4))
@@ -70,6 +72,13 @@ def gen_cases(tier, seed):
             rho = 0.0           # exactly vertically aligned endpoints
         a = [float(rng.uniform(-1e3, 1e3)), float(rng.uniform(-1e3, 1e3)), float(rng.uniform(zlo + 1, -1))]
         b = [a[0] + rho * np.cos(ph), a[1] + rho * np.sin(ph), float(rng.uniform(zlo + 1, -1))]
+        if c.get("on_boundary"):
+            # an endpoint exactly on an inner boundary between two layers
+            zb_ = float(c["edges"][1 + int(rng.integers(0, len(c["edges"]) - 2))])
+            if c["on_boundary"] == "from":
+                a[2] = zb_
+            else:
+                b[2] = zb_
         if kind == "uniform" and rng.random() < 0.3 and zlo < -20:
             # the same kind of points given as whole numbers in Python ints / int arrays
             a = [int(round(a[0])), int(round(a[1])), int(min(-1, max(np.ceil(zlo) + 1, round(a[2]))))]
